@@ -6,8 +6,8 @@ use std::panic::{catch_unwind, AssertUnwindSafe};
 use std::sync::Arc;
 
 use cosmian_cover_crypt::{
-    api::Covercrypt, traits::KemAc, AccessPolicy, EncryptionHint, Error, MasterPublicKey,
-    MasterSecretKey, QualifiedAttribute, UserSecretKey, XEnc,
+    api::Covercrypt, traits::KemAc, AccessPolicy, CleartextHeader, EncryptedHeader, EncryptionHint, Error,
+    MasterPublicKey, MasterSecretKey, QualifiedAttribute, UserSecretKey, XEnc,
 };
 use cosmian_crypto_core::{bytes_ser_de::Serializable, Secret};
 use serde_json::{json, Value};
@@ -395,6 +395,65 @@ impl World {
                                     ev["enc_len"] = json!(enc.serialize().map(|b| b.len()).unwrap_or(0));
                                     let ver = self.bump();
                                     self.encs.insert(e, EncRec { enc, secret, ver, probe: op["probe"].as_bool().unwrap_or(false) });
+                                }
+                                Err(e) => set_res(&mut ev, &Err(e)),
+                            }
+                        }
+                    }
+                    Err(e) => {
+                        set_res(&mut ev, &Err(e));
+                        ev["parse_error"] = json!(true);
+                    }
+                }
+            }
+            "header" => {
+                // encrypted header: generation, serialization round trips of the encrypted and of the
+                // cleartext header, and consistency of decryption with decapsulation for every live key
+                let k = op["mpk"].as_u64().unwrap_or(self.mpks.len() as u64) as usize;
+                ev["mpk"] = json!(k);
+                match self.policy(op) {
+                    Ok((src, ap)) => {
+                        ev["src"] = json!(src);
+                        if k == 0 || k > self.mpks.len() {
+                            ev["res"] = json!("skip");
+                        } else {
+                            let md = op.get("md").and_then(Value::as_str).map(|x| x.as_bytes().to_vec());
+                            let ad = op.get("ad").and_then(Value::as_str).map(|x| x.as_bytes().to_vec());
+                            let (cc, mpk) = (&self.cc, &self.mpks[k - 1]);
+                            match call(|| EncryptedHeader::generate(cc, mpk, &ap, md.as_deref(), ad.as_deref())) {
+                                Ok((secret, hdr)) => {
+                                    ev["res"] = json!("ok");
+                                    let usks = &self.usks;
+                                    let obs = catch_unwind(AssertUnwindSafe(|| {
+                                        let bytes = hdr.serialize().map_err(|e| e.to_string())?;
+                                        let mut ser = cosmian_crypto_core::bytes_ser_de::Serializer::with_capacity(hdr.length());
+                                        let written = hdr.write(&mut ser).map_err(|e| e.to_string())?;
+                                        let hdr2 = EncryptedHeader::deserialize(&bytes).map_err(|e| e.to_string())?;
+                                        let mut rt_ok = bytes.len() == hdr.length() && written == bytes.len() && hdr2 == hdr;
+                                        let mut consistent = true;
+                                        let mut opened = 0;
+                                        for (usk, _) in usks.values() {
+                                            let d = hdr2.decrypt(cc, usk, ad.as_deref()).map_err(|e| e.to_string())?;
+                                            let x = cc.decaps(usk, &hdr.encapsulation).map_err(|e| e.to_string())?;
+                                            consistent &= d.is_some() == x.is_some();
+                                            if let Some(c) = d {
+                                                opened += 1;
+                                                consistent &= c.secret == secret && c.metadata == md;
+                                                // cleartext header round trip (absent and empty metadata are one value on the wire)
+                                                let cb = c.serialize().map_err(|e| e.to_string())?;
+                                                let c2 = CleartextHeader::deserialize(&cb).map_err(|e| e.to_string())?;
+                                                let same = c2.secret == c.secret
+                                                    && c2.metadata.clone().unwrap_or_default() == c.metadata.clone().unwrap_or_default();
+                                                rt_ok &= cb.len() == c.length() && same;
+                                            }
+                                        }
+                                        Ok::<_, String>(json!({"rt_ok": rt_ok, "consistent": consistent, "opened": opened, "len": bytes.len()}))
+                                    }));
+                                    ev["hdr"] = match obs {
+                                        Ok(Ok(v)) => v,
+                                        Ok(Err(e)) => json!({"rt_ok": false, "consistent": false, "opened": 0, "error": e}),
+                                        Err(_) => json!({"rt_ok": false, "consistent": false, "opened": 0, "error": "panic"}),
+                                    };
                                 }
                                 Err(e) => set_res(&mut ev, &Err(e)),
                             }
